@@ -44,6 +44,10 @@ def run(ck):
     _ctx = {}
     for _r in (_c02.collect_sets, _c02.u0_u4_piece_updates, _c02.u1_rook_relocation, _c02.u2_rights):
         ck.run_rule(_r, _ctx)
+    # king safety, castling through attack and the legality filter read the opponent's attack map: its construction (C10's B6, B7)
+    from . import c10 as _c10
+    ck.run_rule(_c10.b6_from_occupancy)
+    ck.run_rule(_c10.b7_dispatch)
 
 
 def is_call(t, suffix):
